@@ -1,6 +1,6 @@
 SPECIFICATION Spec
 CONSTANTS
-  Chains <- QChains
+  Chains <- QBChains
   NX = 4
   CondTab <- MCCondTab
   CondDen <- MCCondDen
@@ -9,7 +9,7 @@ CONSTANTS
   IncDom = {0, 1}
   MaxLen = 3
   IterArgs = {0, 2}
-  StoreArgs = {1}
+  StoreArgs = {0}
 VIEW View
 INVARIANT TypeOK
 INVARIANT OnlyLagrangeStores
@@ -20,6 +20,7 @@ INVARIANT LagIneqFeasibleNotPenalised
 INVARIANT StackedAdd
 INVARIANT ZeroDivisionInfinite
 INVARIANT ErrorIsViolation
+INVARIANT Representable
 PROPERTY ClearResets
 PROPERTY IterAdvances
 PROPERTY StoreFootprint
